@@ -58,11 +58,7 @@ func errCheckedBefore(r *an.R, rule string, d *an.DeclInfo, g *an.G, fname, what
 					// it, without the == nil edge
 					Target: func(l an.Loc) bool { return l == t || (l != al && isAssign(l) && reachesLoc(g, l, t)) },
 					CutEdge: func(b *cfg.Block, k int) bool {
-						cond := an.CondOf(b)
-						if cond == nil {
-							return false
-						}
-						return an.Implied(cond, k == 0, func(atom ast.Expr, truth bool) bool {
+						return g.EdgeImplies(b, k, func(atom ast.Expr, truth bool) bool {
 							be, isB := ast.Unparen(atom).(*ast.BinaryExpr)
 							if !isB || !an.UsesObj(info, be.X, o) || !info.Types[be.Y].IsNil() {
 								return false
